@@ -178,6 +178,12 @@ def typed_refs(arrays, ds, E):
     return out
 
 
+# lower bounds other than -1/0: -2 is the "several actuators on this joint/tendon" sentinel of mj_setConst
+ORACLE_LO = {"jnt_actuatorid": -2, "tendon_actuatorid": -2}
+# arrays holding a type enumerator that selects a branch of mj_validateReferences
+TYPE_FIELDS = ["jnt_type", "geom_type", "eq_type", "eq_objtype", "wrap_type", "actuator_trntype", "sensor_type", "sensor_objtype",
+               "sensor_reftype", "tuple_objtype"]
+
 CODEC_WARN = [
     ("Model file has an incomplete header", (1, 0)),
     ("Model missing header ID", (2, 0)),
@@ -623,6 +629,8 @@ Definition check_case (c : Z * Z * list (Z * Z) * list Z * (Z * Z) * Z * Z) : bo
             vals = [tgt, -1, INT_MAX, -2, tgt + 1000000, tgt - 1]
             if not thorough:
                 vals = vals[:3] if k == 2 else rng.sample(vals, 1)
+            if name in ORACLE_LO and (thorough or k == 2):
+                vals = vals + [v for v in (-2, -3) if v not in vals]
             for v in vals:
                 e = rng.randrange(nel) if nel > 1 else 0
                 if nel > 1 and rng.random() < 0.5:
@@ -640,6 +648,18 @@ Definition check_case (c : Z * Z * list (Z * Z) * list Z * (Z * Z) * Z * Z) : bo
             for nv in vals:
                 add(k, "typedref", patches=setint(im.offs[ai][0] + 4 * e, nv, 4), dump=1,
                     fwd=1 if (k == 2 and thorough) else 0, info=(name, e, nv, tdesc))
+        # type fields set to values outside their enumeration (and sensor_type to mjSENS_PLUGIN in a model without plugins):
+        # the loader must reject (or accept) without raising mju_error or crashing.  Fixed corpus for the rich model.
+        if k == 2 or thorough:
+            for name in TYPE_FIELDS:
+                ai = aidx.get(name)
+                if ai is None or im.arrays[ai][1] < 4:
+                    continue
+                nel = im.arrays[ai][1] // 4
+                tvals = [99, -1, 1 << 20] + ([ENUM["mjSENS_PLUGIN"]] if name == "sensor_type" and "mjSENS_PLUGIN" in ENUM else [])
+                for e in sorted({0, nel - 1}):
+                    for nv in tvals:
+                        add(k, "typefield", patches=setint(im.offs[ai][0] + 4 * e, nv, 4), dump=1, info=(name, e, nv))
         # fixed corpus (both tiers, independent of the seed): -1 in references that have no "none" value
         if k == 2:
             for name, e, fw in (("M_rowadr", 11, 1), ("body_parentid", 3, 0), ("jnt_bodyid", 1, 0), ("geom_bodyid", 2, 0),
@@ -735,12 +755,14 @@ Definition check_case (c : Z * Z * list (Z * Z) * list Z * (Z * Z) * Z * Z) : bo
         # ---- oracle on the implementation's behaviour (property text)
         if r["canary"] > 0 or r["kind"] == "C":
             field = mapname if is_map else (sorted(touched)[0] if touched else None)
+            defect = "size_field_not_validated" if (is_map or touched or r["canary"] > 0) else "crash_in_loader"
             ctx.violation("impl_violation", case_desc(c), expected="rejected with a warning and NULL, or accepted without touching memory outside the model",
                           observed=("crash in mj_loadModelBuffer (%s)" % r["err"]) if r["kind"] == "C" else
                           "mj_loadModelBuffer returned %s after writing outside the allocated model buffer (canary overwritten)" %
                           ("a model" if r["kind"] == "A" else "NULL"),
-                          theorem="C31_real_layout_sizes_checked",
-                          signature={"site": "mj_loadModelBuffer", "defect": "size_field_not_validated", "field": field})
+                          theorem="C31_real_layout_sizes_checked" if defect == "size_field_not_validated" else "C31_reads_in_bounds",
+                          signature={"site": "mj_loadModelBuffer", "defect": defect, "field": field,
+                                     "array": c["info"][0] if c["tag"] in ("ref", "typedref", "typefield") else None})
         elif r["kind"] == "E" and "ould not allocate" not in r["err"]:
             ctx.violation("impl_violation", case_desc(c), expected="rejected with a warning and NULL", observed="mju_error: " + r["err"],
                           theorem="C31_reads_in_bounds", signature={"site": "mj_loadModelBuffer", "defect": "error_instead_of_rejection",
@@ -773,7 +795,7 @@ Definition check_case (c : Z * Z * list (Z * Z) * list Z * (Z * Z) * Z * Z) : bo
                     nums = struct.unpack("<%di" % (len(rawn) // 4), rawn[:4 * (len(rawn) // 4)])
                 for e, v in enumerate(vals):
                     nmv = nums[e] if nums and e < len(nums) else 1
-                    lo = -1 if name in ORACLE_OPTIONAL else 0
+                    lo = ORACLE_LO.get(name, -1 if name in ORACLE_OPTIONAL else 0)
                     if v < lo or nmv < 0 or v + nmv > ds[tgtname]:
                         inrefs = name in refnames
                         if inrefs and v + nmv > INT_MAX:
